@@ -1,5 +1,6 @@
 """Call sites with a real lambda capturing a value (C13 'captured*' entry points): closure variable, module global,
 attribute of a module, constant of a class."""
+import enum
 import types
 
 G = None
@@ -28,3 +29,14 @@ def select_with_modattr(ds, x):
 def select_with_clsattr(ds, x):
     Cfg.V = x
     return ds.Select(lambda e: e.f(Cfg.V))
+
+
+def select_with_strenum(ds, x):
+    """the captured value is a member of a (str, Enum) class whose value is the string x: it IS that string"""
+    member = enum.Enum("Tag", {"M": x}, type=str).M
+    return ds.Select(lambda e: e.f(member))
+
+
+def select_with_intenum(ds, x):
+    member = enum.IntEnum("Num", {"M": x}).M
+    return ds.Select(lambda e: e.f(member))
